@@ -10,6 +10,7 @@ package main
 import (
 	"fmt"
 	"go/ast"
+	"go/token"
 	"os"
 	"path/filepath"
 	"sort"
@@ -93,6 +94,21 @@ func skeletonsOf(p *Pkgs, prop string) []skelFn {
 			fail("pin: file %s not found", file)
 		}
 		for _, d := range f.Decls {
+			// type declarations of a file pinned as a whole: the struct fields and their JSON tags decide what a strict decode
+			// accepts (seeded change C10-r7m1 added a typed field to MemberContent and no function changed)
+			if gd, isGen := d.(*ast.GenDecl); isGen && gd.Tok == token.TYPE && only == nil {
+				for _, sp := range gd.Specs {
+					ts, isType := sp.(*ast.TypeSpec)
+					if !isType {
+						continue
+					}
+					// (comments are not part of the printed node: field docs may change freely)
+					stripComments(ts)
+					out = append(out, skelFn{name: leanIdent(strings.TrimSuffix(file, ".go") + "_type_" + ts.Name.Name),
+						desc: file + ":type " + ts.Name.Name, body: []string{"type " + ts.Name.Name + " " + a2Print(ts.Type)}})
+				}
+				continue
+			}
 			fd, ok := d.(*ast.FuncDecl)
 			if !ok || fd.Body == nil || (only != nil && !only[fd.Name.Name]) {
 				continue
@@ -182,4 +198,15 @@ func must(err error) {
 	if err != nil {
 		fail("%v", err)
 	}
+}
+
+// stripComments removes the doc / line comments hanging off the fields of a struct or interface type.
+func stripComments(ts *ast.TypeSpec) {
+	ts.Doc, ts.Comment = nil, nil
+	ast.Inspect(ts.Type, func(n ast.Node) bool {
+		if f, ok := n.(*ast.Field); ok {
+			f.Doc, f.Comment = nil, nil
+		}
+		return true
+	})
 }
